@@ -166,13 +166,17 @@ func classify(sc am.Schema, index am.S, tx kit.TxRec, v verdict) string {
 					// remover x was not called and is the Add target of another
 					// target state: it (re-)entered the target through the Add
 					// closure that runs after the resolver's blocking pass
-					addImplied := false
-					for _, w := range T {
-						if w != x && kit.Has(sc[w].Add, x) {
-							addImplied = true
+					// (same for the removed state y entering that way, e.g. in
+					// an auto transition whose called state Adds it)
+					addImplied := func(s string) bool {
+						for _, w := range kit.Union(T, C) {
+							if w != s && kit.Has(sc[w].Add, s) {
+								return true
+							}
 						}
+						return false
 					}
-					if !kit.Has(C, x) && addImplied {
+					if (!kit.Has(C, x) && addImplied(x)) || (!kit.Has(C, y) && addImplied(y)) {
 						implied = true
 					} else {
 						other = true
